@@ -444,10 +444,10 @@ func c01Kinds(ctx *core.Ctx, sch *c01Schema, rich M) {
 		for _, kv := range c01KindValues {
 			for pi, pos := range c01Positions {
 				if full {
-					// thorough: the whole product; every value variant in the single and override positions
+					// thorough: the whole product; every value variant and option set in the single position
 					vals := kv.vals
 					sets := c01OptionSets
-					if pi >= 2 {
+					if pi >= 1 {
 						vals = []any{kv.vals[ctx.Rng.Intn(len(kv.vals))]}
 						sets = c01OptionSets[:2]
 					}
@@ -836,7 +836,7 @@ func c01Bytes(ctx *core.Ctx, rich M) {
 	}
 	sort.Strings(seeds)
 	ctx.Note("byte-mutation seeds: %d documents", len(seeds))
-	for i := 0; i < ctx.Pick(3000, 60000); i++ {
+	for i := 0; i < ctx.Pick(3000, 40000); i++ {
 		s := c01Mutate(ctx, seeds[ctx.Rng.Intn(len(seeds))])
 		req := core.LoadReq{Files: map[string]string{"compose.yml": s}, ConfigFiles: []string{"compose.yml"}, ProjectName: "p"}
 		if ctx.Rng.Intn(3) == 0 { // as an override of a valid base
